@@ -278,4 +278,90 @@ theorem Registry.gone_after_loopExit (r : Registry) (pre post : List RegEv) (s :
   rw [Registry.run_append, Registry.run_append]
   exact Registry.gone_run _ s post (Registry.gone_loopExit _ s) hpost
 
+-- parked callers ------------------------------------------------------------------------------------------------------
+
+def goodSite : ParkCfg := { reaches := true, wakesAll := true, checksFlag := true }
+
+/-- with a site that is reached, wakes everybody and checks the flag: once the flag is up nobody is parked, and nobody
+is ever lost (everyone who arrived is parked or has returned) -/
+def Park.Inv (p : Park) : Prop := (p.flag = true → p.parked = []) ∧ p.permit = false
+
+theorem Park.step_inv (p : Park) (e : ParkEv) (h : p.Inv) : (Park.step goodSite p e).Inv := by
+  obtain ⟨h1, h2⟩ := h
+  cases e with
+  | arrive t =>
+    simp only [Park.step, goodSite, Bool.true_and]
+    by_cases hf : p.flag = true
+    · simp [hf, Park.Inv, h1 hf, h2]
+    · simp [hf, h2, Park.Inv]
+  | stop => simp [Park.step, goodSite, Park.Inv, h2]
+
+theorem Park.run_inv (p : Park) (evs : List ParkEv) (h : p.Inv) : (Park.run goodSite p evs).Inv := by
+  induction evs generalizing p with
+  | nil => exact h
+  | cons e es ih => exact ih _ (Park.step_inv p e h)
+
+theorem Park.flag_monotone (p : Park) (evs : List ParkEv) (h : p.flag = true) : (Park.run goodSite p evs).flag = true := by
+  induction evs generalizing p with
+  | nil => exact h
+  | cons e es ih =>
+    apply ih
+    cases e with
+    | arrive t =>
+      simp only [Park.step, goodSite, Bool.true_and, h]
+      simp
+    | stop => simp [Park.step, goodSite]
+
+theorem Park.run_append (c : ParkCfg) (p : Park) (a b : List ParkEv) : Park.run c p (a ++ b) = Park.run c (Park.run c p a) b := by
+  simp [Park.run, List.foldl_append]
+
+theorem Park.after_stop_nobody_parked (pre post : List ParkEv) :
+    (Park.run goodSite {} (pre ++ [.stop] ++ post)).parked = [] := by
+  rw [Park.run_append, Park.run_append]
+  have hinv : (Park.run goodSite {} pre).Inv := Park.run_inv {} pre (by simp [Park.Inv])
+  have hstop : (Park.run goodSite (Park.run goodSite {} pre) [.stop]).flag = true := by
+    simp [Park.run, Park.step, goodSite]
+  have hinv2 := Park.run_inv _ [.stop] hinv
+  have hflag := Park.flag_monotone _ post hstop
+  exact (Park.run_inv _ post hinv2).1 hflag
+
+def ParkEv.isArrive : ParkEv → Bool
+  | .arrive _ => true
+  | .stop => false
+
+theorem Park.step_conservation (c : ParkCfg) (p : Park) (e : ParkEv) :
+    (Park.step c p e).parked.length + (Park.step c p e).returned.length
+      = p.parked.length + p.returned.length + (if e.isArrive then 1 else 0) := by
+  cases e with
+  | arrive t =>
+    simp only [Park.step, ParkEv.isArrive]
+    split
+    · simp; omega
+    · split
+      · split <;> simp <;> omega
+      · simp; omega
+  | stop =>
+    simp only [Park.step, ParkEv.isArrive]
+    split
+    · simp
+    · split
+      · simp; omega
+      · split
+        · simp
+        · rename_i t rest hp
+          simp [hp]; omega
+
+/-- nobody is lost: the callers that arrived are exactly those parked or returned (lengths add up) -/
+theorem Park.conservation (c : ParkCfg) (p : Park) (evs : List ParkEv) :
+    (Park.run c p evs).parked.length + (Park.run c p evs).returned.length
+      = p.parked.length + p.returned.length + (evs.filter ParkEv.isArrive).length := by
+  induction evs generalizing p with
+  | nil => simp [Park.run]
+  | cons e es ih =>
+    have h1 := ih (Park.step c p e)
+    have h2 := Park.step_conservation c p e
+    simp only [Park.run, List.foldl_cons] at h1 ⊢
+    rw [h1, h2]
+    cases e <;> simp [ParkEv.isArrive, List.filter] <;> omega
+
 end Rzmq
